@@ -351,7 +351,7 @@ theorem observeRec_spec {P : Params} (hv : RungValid P) (jr : JobRec) (b : Nat) 
           | fail t => exact Or.inl ⟨t, rfl⟩
         · have hne : MKey.rung r ≠ MKey.rung jr.js.rung := by intro e; cases e; exact hr rfl
           left; simpa [mget_mset_ne _ hne] using h
-      · intro _ q' _; simp [mget_mset_self]
+      · intro _ q' _; simp [mget_mset_self, transformObjective]
 
 structure BaseSpec (jr jr2 : JobRec) : Prop where
   halted : jr2.halted = jr.halted
